@@ -200,6 +200,12 @@ def build_pairs(rng, quick=True):
             if not x["t"].get("ptr") or x["t"]["k"] == "struct":
                 x["req"] = "required"
         P.reader(wname, f, "all-required", mapping=mp)
+        # the same with every string / binary field also declared nocopy (required x nocopy)
+        f = copy.deepcopy(f)
+        for x in f:
+            if x["t"]["k"] in ("string", "binary"):
+                x["nocopy"] = True
+        P.reader(wname, f, "all-required-nocopy", mapping=mp)
     return P.finish()
 
 
